@@ -316,6 +316,63 @@ def run(R):
                     R.violation("C17.pair", "print|%s|index" % ch.spath.split("::")[-1],
                                 "the value index is not the unmodified enumerate index of the column name (%s): names and values are skewed"
                                 % [str(o) for o in os_], [c.loc()])
+    # the names the records are built from are the result's column names themselves
+    R.rule("C17.names", "the names paired with the values (JSON keys, CSV header, text `name:`) are the elements of ResultRow.columns: every "
+                        "iterator the format closures are mapped over starts at `result_row.columns`, and the JSON key is that element cloned")
+    ITER_STEP = re.compile(r"::iter$|::enumerate$|IntoIterator>::into_iter$|Deref>::deref$|::as_slice$|::iter_mut$|Iterator::(by_ref|zip|peekable)$|"
+                           r"Index<.*>>::index$")
+    n_names = 0
+    for c0 in f.calls:
+        cks = [ck for ck in (c0.func.get("closure_args") or []) if ck in seen_cl]
+        if not cks or not re.search(r"Iterator::map$|Iterator::for_each$", short(c0.name)) or not c0.args:
+            continue
+        chv = PR.desugared(P, P.fns[cks[0]])
+        if not any(short(c.name).endswith("Index<I>>::index") and (c.func.get("res_targs") or [""])[0] == "sqlgrep::model::Value" for c in chv.calls):
+            continue
+        cfn = P.fns[cks[0]]
+        if not re.search(r"&(alloc::string::String|str)\b", " ".join(cfn.local_ty(a) for a in range(1, cfn.arg_count + 1))):
+            continue        # a closure over the indices alone (`(0..n).map(|i| ..)`) pairs no name
+        work, seen_o, leaves = [c0.args[0]], set(), []
+        while work and len(seen_o) < 60:
+            op = work.pop()
+            for o in F.origins(f, op, depth=12, through_calls=True):
+                if o.kind == "call":
+                    if id(o.call) in seen_o:
+                        continue
+                    seen_o.add(id(o.call))
+                    n = short(o.call.name)
+                    if ITER_STEP.search(n) and o.call.args:
+                        work.append(o.call.args[0])
+                    elif not F.TRANSPARENT.search(n):
+                        leaves.append(("call", n, o.call.loc()))
+                elif o.kind in ("arg", "place") and o.place is not None:
+                    leaves.append(("place", place_fields(o.place), None))
+                elif o.kind not in ("unknown",):
+                    leaves.append((o.kind, str(o), None))
+        n_names += 1
+        badl = [l for l in leaves if not (l[0] == "place" and l[1][-1:] == ["columns"])]
+        key = "print|%s" % P.fns[cks[0]].spath.split("::")[-1]
+        if leaves and not badl:
+            R.ok("C17.names", key, "mapped over result_row.columns", c0.loc())
+        else:
+            R.violation("C17.names", key + "|source", "the names of this format are not taken from ResultRow.columns but from %s: a record's keys / "
+                        "labels can differ from the output column names" % ([("%s %s" % (l[0], l[1]))[:80] for l in badl[:2]] or "nothing traceable"),
+                        [badl[0][2] or c0.loc()] if badl else [c0.loc()])
+        # JSON: key = the name cloned
+        for st_i, st in chv.stmts():
+            if st["k"] == "assign" and st["pl"]["l"] == 0 and not st["pl"]["p"] and st["rv"]["k"] == "aggr" and st["rv"].get("ak") == "tuple" and \
+                    len(st["rv"]["ops"]) == 2 and "String" in (st["rv"]["ops"][0].get("ty") or ""):
+                os_ = F.origins(chv, st["rv"]["ops"][0], depth=10, through_calls=True)
+                odd = [o for o in os_ if o.kind == "call" and not F.TRANSPARENT.search(short(o.call.name)) and
+                       not re.search(r"ToString>::to_string$|From<.*>>::from$|Into<.*>>::into$|ToOwned>::to_owned$", short(o.call.name))]
+                if odd or not any(o.kind == "arg" for o in os_):
+                    R.violation("C17.names", key + "|key", "the JSON key is not the column name itself (%s)" %
+                                ([short(o.call.name).split("::")[-1] for o in odd] or "not derived from the closure's name argument"),
+                                [odd[0].call.loc() if odd else c0.loc()])
+                else:
+                    R.ok("C17.names", key + "|key", "key = name.to_owned()", c0.loc())
+    if n_names < 1 and n_pair >= 3:
+        R.violation("C17.names", "print|closures", "none of the format closures is mapped over the column names", [f.loc()])
     if n_pair < 3:
         R.violation("C17.pair", "print|closures", "expected the three format closures to index row.columns (found %d)" % n_pair, [f.loc()])
     # json_value arm table
